@@ -19,7 +19,7 @@ ASSUMPTIONS = ['unitless (valueunit None) spectra stored in m / um / nm / angstr
                "Simpson's rule is exercised only with uniformly spaced centres and data, as the property scopes it"]
 PLAN = {'quick': {'gen': 8}, 'thorough': {'gen': 16, 'tests': 1, 'docs': 1}}
 REQUIRED_BUCKETS = ['bin:narrow-line', 'crop:outside-data', 'bin:integer-centres', 'values:small-int', 'bin:zero-spectrum', 'integrate:bright-band-below-bounds', 'wave:integer-dtype', 'unit:m', 'unit:um', 'unit:nm', 'unit:angstrom', 'bin:unit-same', 'bin:unit-differs', 'integrate:trapz', 'integrate:simps', 'bin:trapz', 'bin:simps', 'ends:symmetric', 'ends:inside',
-                    'preserve:True', 'preserve:False', 'grid:nonuniform', 'op:crop', 'op:trim', 'op:pad', 'op:append',
+                    'preserve:True', 'preserve:False', 'grid:nonuniform', 'op:crop', 'op:trim', 'op:pad', 'op:append', 'value:narrow-dtype', 'resample:short-narrow', 'value:signed',
                     'op:resample', 'op:raised', 'history:len>=6']
 REQUIRED_ANCHORS = ['probe:Spectrum.crop', 'probe:Spectrum.trim', 'probe:Spectrum.pad', 'probe:Spectrum.append',
                     'probe:Spectrum.resample', 'anchor:Spectrum.integrate', 'anchor:Spectrum.bin', 'anchor:Spectrum.ends']
@@ -48,6 +48,9 @@ def invariant(ctx, s, op, info):
     return ok
 
 
+_VALUE_EPS = {}      # id(spectrum) -> machine epsilon of the type its values were held in before the operation
+
+
 def retained(ctx, s, pre, op, info):
     w0, v0 = pre
     w, v = np.asarray(s._wave, float), np.asarray(s._value, float)
@@ -55,12 +58,17 @@ def retained(ctx, s, pre, op, info):
         return
     common, i0, i1 = np.intersect1d(w0, w, return_indices=True)
     sc = max(float(np.max(np.abs(v0))) if v0.size else 0.0, 1e-300)
-    ok = bool(np.all(np.abs(v0[i0] - v[i1]) <= 1e-12 * sc)) if common.size else True
+    # "unaltered" is to rounding at the precision the values are held in (an interpolator may evaluate single-precision data in
+    # single precision: one ulp of that type is not an alteration)
+    tol = 1e-12
+    ok = bool(np.all(np.abs(v0[i0] - v[i1]) <= tol * sc)) if common.size else True
     ctx.check(ok, 'retained', f'retained|{op}', 'an editing operation altered a sample it retained', info)
 
 
 def make_edit_oracle(op):
     def before(ctx, args, kwargs):
+        vdt = np.asarray(args[0]._value).dtype
+        _VALUE_EPS[id(args[0])] = float(np.finfo(vdt).eps) if vdt.kind == 'f' else 0.0
         return snapshot(args[0])
 
     def wellformed(pre):
@@ -118,6 +126,14 @@ def make_edit_oracle(op):
                               'trim did not keep exactly the samples from the first to the last above tol*max', info)
             elif not np.any(v0):
                 ctx.check(np.array_equal(w, w0), 'trim:first-last', 'trim|all-zero', 'trim changed an all-zero spectrum', info)
+        elif op == 'append':
+            # the joined spectrum holds the receiver's samples followed by the appended ones, each exactly as it was (whatever types
+            # the two operands are stored in)
+            oth = args[1] if len(args) > 1 else kwargs.get('spectrum', kwargs.get('other'))
+            if hasattr(oth, '_wave'):
+                ow_, ov_ = snapshot(oth)
+                ctx.check(np.array_equal(w, np.r_[w0, ow_]) and np.array_equal(v, np.r_[v0, ov_]), 'retained', 'append|joined',
+                          'the spectrum after append is not the receiver\'s samples followed by the appended samples, unaltered', info)
         elif op == 'pad':
             inside = (w >= w0[0]) & (w <= w0[-1])
             ctx.check(np.array_equal(w[inside], w0), 'retained', 'pad|inner', 'pad changed the original samples', info)
@@ -390,6 +406,22 @@ def workload(ctx, lentil):
                       scale=abs(tot) + 1e-300)
         except Exception as e:
             ctx.check(False, 'bin:power', f'bin|narrow-line|raises={type(e).__name__}', str(e), {'line_centre': c0})
+    # ---- very short spectra (one to three samples) whose values are held in a narrow type, resampled onto a grid that contains
+    # their own wavelengths: those samples are retained as they are (online oracle) -------------------------------------------
+    for i in range(ctx.count(8, 40)):
+        m = 1 + i % 3
+        w = np.sort(rng.uniform(350, 900, size=m))
+        dt = [np.float32, np.float16, np.float64, np.uint8, np.int32][i % 5]
+        v = rng.uniform(0.2, 1.0, size=m)
+        v = np.round(v * 200).astype(dt) if np.dtype(dt).kind in 'iu' else v.astype(dt)
+        extra = rng.uniform(300, 950, size=int(rng.integers(1, 5)))
+        grid = np.unique(np.r_[w, extra])
+        ctx.case({'short-spectrum': m, 'dtype': np.dtype(dt).name, 'grid': int(grid.size)}, ['resample:short-narrow'])
+        try:
+            S(w.copy(), v.copy()).resample(grid)
+        except Exception as e:
+            ctx.check(False, 'retained', f'resample|short|raises={type(e).__name__}', str(e), {'m': m, 'dtype': np.dtype(dt).name})
+
     # ---- histories ----------------------------------------------------------------------------------------
     nh = ctx.count(60, 500)
     for i in range(nh):
@@ -409,6 +441,19 @@ def workload(ctx, lentil):
             v = v[:w.size]
             m = int(w.size)
             ctx.bucket('wave:integer-dtype')
+        if i % 6 == 1:
+            # a difference / background-subtracted spectrum: negative wings and dips (the relative tolerance of trim refers to the
+            # largest value, and only samples ABOVE it count)
+            v = v - float(rng.uniform(0.05, 0.6)) * float(v.max()) * rng.random(v.size)
+            if rng.random() < 0.3:
+                v[int(rng.integers(0, v.size))] = -float(rng.uniform(1, 3)) * float(np.abs(v).max())      # a dip deeper than the peak is high
+            ctx.bucket('value:signed')
+        if i % 7 == 2:
+            v = v.astype(np.float32)                   # values as read from a single-precision file
+            ctx.bucket('value:narrow-dtype')
+        elif i % 7 == 5:
+            v = np.round(v / max(float(v.max()), 1e-300) * 200).astype([np.uint8, np.uint16, np.int32][int(rng.integers(0, 3))])   # detector counts
+            ctx.bucket('value:narrow-dtype')
         sp = S(w.copy(), v.copy())
         L = int(rng.integers(1, 13))
         ops = []
